@@ -93,6 +93,11 @@ def run(ctx: Ctx) -> Result:
             for pos in sorted({0, 1, hs_ // 2, max(0, hs_ - 9), hs_ - 1}):
                 lk1 = lkb[:at_ + pos] + bytes([lkb[at_ + pos] ^ (1 << rng.randrange(8))]) + lkb[at_ + pos + 1:]
                 res.note_case((tuple(seeds), 'commitment-bit', hs_, pos))
+                if pos + 8 < hs_:
+                    mk_ = 1 << rng.randrange(8)
+                    lk2_ = bytearray(lkb); lk2_[at_ + pos] ^= mk_; lk2_[at_ + pos + 8] ^= mk_
+                    ok, v = B.auth([W['scripthash'].bytes, bytes(lk2_)], sf)
+                    if ok: B.viol(f'scripthash lock ({hs_}-byte commitment) with bit {mk_:02x} flipped in bytes {pos} and {pos + 8} of the commitment accepts the witness for the original script', {**inp, 'scripts': [W['scripthash'].bytes.hex(), bytes(lk2_).hex()], 'cache': vmrun.cache_str(sf, False)}, False, v)
                 ok, v = B.auth([W['scripthash'].bytes, lk1], sf)
                 if ok: B.viol(f'scripthash lock ({hs_}-byte commitment) with bit flipped in byte {pos} of the commitment accepts the witness for the original script', {**inp, 'scripts': [W['scripthash'].bytes.hex(), lk1.hex()], 'cache': vmrun.cache_str(sf, False)}, False, v)
         # a used authorization (signature, surrogate) is public: re-cutting the pair - bytes of the surrogate moved onto the end of the
